@@ -914,17 +914,27 @@ func genCase(t *rapid.T) Case {
 // ---------------------------------------------------------------------------
 // tests
 
+func propRoundTrip(t *rapid.T) {
+	c := genCase(t)
+	nt, classes := classify(&c)
+	mm := runCase(&c)
+	ev.R().Case(ev.Hash(&c), nt, classes, func() any { return &c })
+	if mm != nil {
+		path := ev.R().Fail(mm.Signature(), mm.Error(), Doc{Property: "C09", Case: c, Mismatch: mm})
+		t.Fatalf("C09 violated: %v (replay %s)", mm, path)
+	}
+}
+
 func TestProp(t *testing.T) {
-	rapid.Check(t, func(t *rapid.T) {
-		c := genCase(t)
-		nt, classes := classify(&c)
-		mm := runCase(&c)
-		ev.R().Case(ev.Hash(&c), nt, classes, func() any { return &c })
-		if mm != nil {
-			path := ev.R().Fail(mm.Signature(), mm.Error(), Doc{Property: "C09", Case: c, Mismatch: mm})
-			t.Fatalf("C09 violated: %v (replay %s)", mm, path)
-		}
-	})
+	rapid.Check(t, propRoundTrip)
+}
+
+// FuzzProp drives the same property (same generator, same oracle) from Go's
+// native coverage-guided fuzzer: the fuzzer's bytes are the entropy rapid draws
+// from (thorough tier only, bounded -fuzztime; a failing case is saved as the
+// usual JSON replay by ev.Fail).
+func FuzzProp(f *testing.F) {
+	f.Fuzz(rapid.MakeFuzz(propRoundTrip))
 }
 
 // TestReplay re-runs a saved case without the library.
